@@ -65,7 +65,7 @@ pub enum CaseEnd<T> {
 }
 
 /// Runs `main` to completion on a fresh runtime of the given flavour, on threads named after a case-unique tag
-pub fn run_case<T: Send + 'static, F: Future<Output = T> + Send + 'static>(rt: Rt, main: impl FnOnce() -> F + Send + 'static) -> CaseEnd<T> {
+pub fn run_case<T: Send + 'static, F: Future<Output = T> + 'static>(rt: Rt, main: impl FnOnce() -> F + Send + 'static) -> CaseEnd<T> {
     crate::sched::install_quiet_panic_hook();
     let tag = format!("rtcase-{}-", CASE_SEQ.fetch_add(1, SeqCst));
     let (tx, rx) = std::sync::mpsc::channel();
@@ -220,16 +220,16 @@ impl World {
     pub fn started_of(&self, e: usize) -> Vec<u64> { self.started.lock().unwrap()[e].iter().map(|x| x.0).collect() }
 }
 
-struct InFlight { world: Arc<World>, e: usize, v: u64, done: bool }
+pub struct InFlight { world: Arc<World>, e: usize, v: u64, done: bool }
 impl InFlight {
-    fn new(world: &Arc<World>, e: usize, v: u64) -> Self {
+    pub fn new(world: &Arc<World>, e: usize, v: u64) -> Self {
         let s = world.tick();
         world.started.lock().unwrap()[e].push((v, s));
         let now = world.in_flight[e].fetch_add(1, SeqCst) + 1;
         world.max_in_flight[e].fetch_max(now, SeqCst);
         InFlight { world: Arc::clone(world), e, v, done: false }
     }
-    fn done(&mut self) {
+    pub fn done(&mut self) {
         self.done = true;
         let s = self.world.tick();
         self.world.finished.lock().unwrap()[self.e].push((self.v, s));
